@@ -1112,3 +1112,38 @@ func ruleSortTotal(c *Ctx, r *Report) {
 	r.Check(stages >= 2 && injective, "ygot.mapJSON:comparator", c.Pos(at), "two-stage comparator with an injective tie-break on the key",
 		"mapJSON orders map entries by their keys' display strings only: two keys with the same display string ({\"a b\",\"c\"} and {\"a\",\"b c\"}, or union keys \"1\" and 1) are rendered in map-iteration order, so re-rendering is not byte-identical")
 }
+
+// ---- R-LEAFREF-NO-WILDCARD (C30) ---------------------------------------------------------------
+
+// ruleLeafrefNoWildcard: every key value in the gNMI path built for a leafref is a data value or a
+// quoted literal of the schema — never a pattern. The lookup of the selected nodes must therefore
+// not enable "*"-as-wildcard, or a predicate whose value happens to be "*" selects every entry.
+func ruleLeafrefNoWildcard(c *Ctx, r *Report) {
+	r.Rule("R-LEAFREF-NO-WILDCARD", "the leafref resolver (ytypes/leafref.go) never passes GetHandleWildcards to GetNode: key values in a leafref path are data values or quoted literals, so \"*\" must be compared literally", 1)
+	n := 0
+	for _, f := range c.AllFuncs("ytypes") {
+		if c.relFile(f.Decl.Pos()) != "ytypes/leafref.go" {
+			continue
+		}
+		info := f.Info()
+		for _, call := range CallsIn(info, f.Decl.Body, P("ytypes")+".GetNode") {
+			n++
+			bad := false
+			for _, a := range call.Args {
+				ast.Inspect(a, func(x ast.Node) bool {
+					if cl, ok := x.(*ast.CompositeLit); ok {
+						if tv, ok := info.Types[cl]; ok && tv.Type != nil && strings.HasSuffix(tv.Type.String(), "ytypes.GetHandleWildcards") {
+							bad = true
+						}
+					}
+					return true
+				})
+			}
+			r.Check(!bad, fmt.Sprintf("%s:GetNode#%d:no-wildcards", f.Name, n), c.Pos(call.Pos()), "lookup without wildcard handling",
+				f.Name+" looks up the nodes a leafref path selects with GetHandleWildcards: a predicate whose value is the string \"*\" (current()/../sel with sel=\"*\", or a literal) selects every list entry, and a reference whose value exists only under another key is accepted")
+		}
+	}
+	if n == 0 {
+		r.Und("ytypes/leafref.go:GetNode", "-", "no GetNode call found in the leafref resolver")
+	}
+}
